@@ -223,7 +223,9 @@ def gen_program(rng, pkg, n=None, p_explicit=0.15, p_hidden=0.12, min_memento=2,
             if rng.random() < 0.45:
                 inner_t = nodes[nd["nested"]["call"]]["name"] if nd["nested"]["call"] is not None else None
                 pool = [vars_[rd["v"]]["name"] for rd in nd["reads"] if rd["form"] == "bare"]
-                pool += [nodes[c["t"]]["name"] for c in nd["calls"] if c["form"] in ("bare", "chain")]
+                # (callees of the same module only: a name imported for a call stays bound in a running process after
+                # an edit removed the call, which a fresh import of the edited text would not have)
+                pool += [nodes[c["t"]]["name"] for c in nd["calls"] if c["form"] in ("bare", "chain") and nodes[c["t"]]["mod"] == nd["mod"]]
                 pool = [p_ for p_ in pool if p_ != inner_t and p_ not in BUILTIN_NAMES]
                 if pool:
                     nd["nested"]["param"] = rng.choice(pool)
